@@ -23,6 +23,9 @@ var pairs = []pair{
 	{"a", " a"},
 	{"a\n", "a"},
 	{"A", "a"},
+	// ids that contain formatting directives are ordinary, distinct ids (an id must never be used as a format)
+	{"acme%2Forders", "acme%3Forders"},
+	{"t%s", "t%v"},
 }
 
 // Sessions: a record produced for Q handed to a session for P (same factory, store, caches).
